@@ -169,7 +169,7 @@ TYPEDEFS = {}   # 'romea::core::X<...>::Alias' -> desugared type string (filled 
 
 def parse_type(q):
     """qualType string (desugared where possible) -> (irtype, is_ref, is_const)"""
-    q = q.strip()
+    q = re.sub(r'\b(\d+)(?:ULL|UL|LL|U|L)\b', r'\1', q.strip())
     is_ref = False
     if q.endswith('&&'):
         q = q[:-2].strip(); is_ref = True
@@ -182,6 +182,13 @@ def parse_type(q):
         return ('ptr', inner), is_ref, is_const
     if q0 in BUILTIN:
         return BUILTIN[q0], is_ref, is_const
+    for bare, full in (('vector<', 'std::vector<'), ('Array<', 'Eigen::Array<'), ('Matrix<', 'Eigen::Matrix<'), ('list<', 'std::list<'), ('map<', 'std::map<')):
+        if q0.startswith(bare):
+            q0 = full + q0[len(bare):]
+    if q0.endswith('::value_type'):
+        inner, _, _ = parse_type(q0[:-len('::value_type')])
+        if inner[0] in ('vector', 'list'):
+            return inner[1], is_ref, is_const
     m = re.match(r'^Eigen::(Vector|RowVector|Matrix)([234])([dfi])$', q0)
     if m:
         st = {'d': ('float', 64), 'f': ('float', 32), 'i': ('int', 32, True)}[m.group(3)]
@@ -191,13 +198,17 @@ def parse_type(q):
     if q0 in TYPEDEFS:
         t, r2, c2 = parse_type(TYPEDEFS[q0])
         return t, is_ref or r2, is_const or c2
+    if q0 in ('Eigen::Affine3d', 'Eigen::Isometry3d') or q0.startswith('Eigen::Transform<double, 3,'):
+        return ('eig', ('float', 64), 4, 4), is_ref, is_const     # Affine3d modelled as its 4x4 homogeneous matrix
     name, targs = template_parts(q0)
     if targs and len(targs) == 1 and (name in TYPEDEFS or ('romea::core::' + name) in TYPEDEFS) and not name.startswith('std::'):
         # alias template of the repository (using X = Eigen::Matrix<Scalar, N, 1>): substitute its single parameter
         body = TYPEDEFS.get(name) or TYPEDEFS['romea::core::' + name]
-        body = re.sub(r'\b(Scalar|T)\b', targs[0], body)
+        body = re.sub(r'\b(Scalar|T)\b', targs[0], body).replace('type-parameter-0-0', targs[0])
         if body.startswith('Matrix<'):
             body = 'Eigen::' + body
+        if body.startswith('vector<'):
+            body = 'std::' + body
         t, r2, c2 = parse_type(body)
         return t, is_ref or r2, is_const or c2
     if name in ('Eigen::Matrix', 'Eigen::Array') and targs:
@@ -341,6 +352,7 @@ class Program:
         self.units = []
         self.by_def_id = {}    # clang decl id (any redeclaration) -> (unit, parent_qual, def node)
         self.cname_of_id = {}  # definition id -> cname
+        self.cname_of_src = {} # (file, offset, type, parent) -> cname
         self.pending = []
 
     def rule(self, name):
@@ -414,6 +426,9 @@ class Program:
 
     def register(self, cname, parent, name, sig=None, const=None, nparams=None):
         u, p, n = self.find(parent, name, sig, const, nparams)
+        rb = n.get('range', {}).get('begin', {})
+        rb = rb.get('expansionLoc', rb)
+        self.cname_of_src[(n.get('_file'), rb.get('offset'), n.get('type', {}).get('qualType'), p)] = cname
         self.cname_of_id[n['id']] = cname
         self.pending.append((cname, u, p, n))
         return cname
@@ -438,6 +453,11 @@ class Program:
             except ExtractError:
                 return None
         u, parent, n = ent
+        rb = n.get('range', {}).get('begin', {})
+        rb = rb.get('expansionLoc', rb)
+        skey = (n.get('_file'), rb.get('offset'), n.get('type', {}).get('qualType'), parent)
+        if n['id'] not in self.cname_of_id and skey in self.cname_of_src:
+            self.cname_of_id[n['id']] = self.cname_of_src[skey]      # the same definition seen from another translation unit
         if n['id'] not in self.cname_of_id:
             base = fn_basename(parent, n)
             cname = base
@@ -446,6 +466,7 @@ class Program:
                 k += 1
                 cname = '%s_%d' % (base, k)
             self.cname_of_id[n['id']] = cname
+            self.cname_of_src[skey] = cname
             self.pending.append((cname, u, parent, n))
             self.rule('callee extracted on demand (body verified inline, no contract)')
         cname = self.cname_of_id[n['id']]
@@ -474,6 +495,25 @@ class Program:
             self.functions[cname] = f
             if f.rec:
                 self.need_record(parent)
+            # every record type mentioned by the function (parameters, locals, temporaries)
+            seen = set()
+
+            def scan(x):
+                if isinstance(x, tuple):
+                    if len(x) == 2 and x[0] == 'struct' and isinstance(x[1], str):
+                        if x[1] not in seen:
+                            seen.add(x[1])
+                            try:
+                                self.need_type(x)
+                            except ExtractError:
+                                pass
+                        return
+                    for y in x:
+                        scan(y)
+                elif isinstance(x, list):
+                    for y in x:
+                        scan(y)
+            scan(f.body); scan([p[1] for p in f.params]); scan(f.ret)
         # records of all struct types mentioned
         return self.functions
 
@@ -755,6 +795,41 @@ class AstUnit:
                             break
                 self.funcs.append((parent, n))
 
+    def static_const(self, decl_id, depth=0):
+        """value of a (static) constexpr variable referenced by id, following references to other constexpr variables"""
+        if not hasattr(self, '_vars'):
+            self._vars = {}
+            stack = list(self.objs)
+            while stack:
+                x = stack.pop()
+                if isinstance(x, dict):
+                    if x.get('kind') == 'VarDecl' and 'id' in x:
+                        self._vars[x['id']] = x
+                    stack.extend(v for v in x.values() if isinstance(v, (dict, list)))
+                elif isinstance(x, list):
+                    stack.extend(x)
+        v = self._vars.get(decl_id)
+        if v is None or depth > 6:
+            return None
+        inn = [c for c in v.get('inner', []) if isinstance(c, dict)]
+        if not inn:
+            return None
+
+        def fold(n):
+            k = n.get('kind')
+            ii = [c for c in n.get('inner', []) if isinstance(c, dict)]
+            if k == 'ConstantExpr' and 'value' in n:
+                try:
+                    return int(n['value'])
+                except ValueError:
+                    pass
+            if k == 'DeclRefExpr':
+                return self.static_const(n.get('referencedDecl', {}).get('id'), depth + 1)
+            if k in ('ImplicitCastExpr', 'ConstantExpr', 'ParenExpr', 'CXXStaticCastExpr', 'CStyleCastExpr', 'SubstNonTypeTemplateParmExpr') and ii:
+                return fold(ii[-1])
+            return const_fold_node(n)
+        return fold(inn[0])
+
     def global_const(self, name, tr):
         """literal initialiser of a const namespace-scope variable (looked up with a dedicated clang run, cached)"""
         if not hasattr(self, '_gc'):
@@ -890,6 +965,7 @@ class FnTranslator:
     def __init__(self, prog, unit, node, parent_qual, cname, virtual_static=True):
         self.prog, self.unit, self.node, self.parent = prog, unit, node, parent_qual
         self.cname = cname
+        self.consts = {}      # decl id -> integer value (counters of loops unrolled at extraction)
         self.iters = {}       # decl id of an iterator variable -> container lvalue
         self.alias = {}       # decl id -> lvalue IR (reference locals)
         self.vars = {}        # decl id -> (cname, irtype, is_ptr)
@@ -1116,6 +1192,15 @@ class FnTranslator:
             el = self.stmt(parts[2]) if len(parts) > 2 else []
             return pre + [('if', c, th, el)]
         if k == 'ForStmt':
+            save = (self.loopn, list(self.pre), dict(self.vars), dict(self.alias), set(self.names), self.tmpn)
+            try:
+                return self.for_stmt(n)
+            except ExtractError as ex:
+                if 'compile-time constant' not in str(ex):
+                    raise
+                self.loopn, self.pre, self.vars, self.alias, self.names, _ = save[0], save[1], save[2], save[3], save[4], save[5]
+                return self.unroll_for(n, ex)
+        if k == '__ForStmtBody':
             raw = n.get('inner', [])
             init, condvar, cond, inc, body = raw[0], raw[1], raw[2], raw[3], raw[4]
             ini = self.stmt(init) if init else []
@@ -1142,6 +1227,15 @@ class FnTranslator:
                 self.rule('while with side effects in its condition -> while(1) { effects; if (!cond) break; body }')
                 return [('while', ('const', ('bool',), 1), cpre + [('if', ('un', '!', c, ('bool',)), [('break',)], [])] + b, ordn)]
             return [('while', c, b, ordn)]
+        if k == 'DoStmt':
+            parts = self.inner(n)
+            ordn = self.loopn
+            self.loopn += 1
+            b = self.stmt(parts[0])
+            c = self.expr(parts[1])
+            if self.pre:
+                self.err(n, 'hoisted temporaries in do-while condition')
+            return [('dowhile', c, b, ordn)]
         if k == 'CXXForRangeStmt':
             return self.range_for(n)
         if k == 'ReturnStmt':
@@ -1170,6 +1264,42 @@ class FnTranslator:
             return [('continue',)]
         # expression statement
         return self.expr_stmt(n)
+
+    def for_stmt(self, n):
+        m = dict(n); m['kind'] = '__ForStmtBody'
+        return self.stmt(m)
+
+    def unroll_for(self, n, why):
+        """for (T i = a; i < b; i++) with literal bounds whose body indexes Eigen objects by i: unrolled at extraction"""
+        raw = n.get('inner', [])
+        init, cond, inc, body = raw[0], raw[2], raw[3], raw[4]
+        try:
+            d = self.inner(init)[0]
+            assert init['kind'] == 'DeclStmt' and d['kind'] == 'VarDecl'
+            lo = self.const_int(self.inner(d)[0])
+            c = self.strip(cond)
+            assert c['kind'] == 'BinaryOperator' and c['opcode'] in ('<', '<=', '!=')
+            l, r = self.inner(c)
+            ls = self.strip(l)
+            while ls['kind'] == 'ImplicitCastExpr':
+                ls = self.strip(self.inner(ls)[0])
+            assert ls['kind'] == 'DeclRefExpr' and ls['referencedDecl']['id'] == d['id']
+            hi = self.const_int(r)
+            assert lo is not None and hi is not None
+            if c['opcode'] == '<=':
+                hi += 1
+            i = self.strip(inc)
+            assert i['kind'] == 'UnaryOperator' and i['opcode'] == '++'
+            assert 0 <= hi - lo <= 16
+        except (AssertionError, IndexError, KeyError):
+            raise why
+        out = []
+        for v in range(lo, hi):
+            self.consts[d['id']] = v
+            out.append(('block', self.stmt(body)))
+        del self.consts[d['id']]
+        self.rule('for loop with a compile-time trip count indexing Eigen objects by its counter: unrolled at extraction')
+        return out
 
     def vardecl(self, d):
         if d['kind'] != 'VarDecl':
@@ -1304,9 +1434,11 @@ class FnTranslator:
                 if lt[0] in ('struct', 'vector', 'optional'):
                     rv = self.struct_value(args[1])
                     return self.flush() + [('assign', self.lvalue(self.strip(args[0])), rv)]
-            if op in ('+=', '-=', '*=', '/=') and self.T(args[0])[0] == 'eig':
-                lt = self.T(args[0])
+            if op in ('+=', '-=', '*=', '/=') and (self.T(args[0])[0] == 'eig' or self.is_eigen_node(args[0])):
                 lhs = self.eig(args[0])
+                lt = ('eig', lhs.st, lhs.rows, lhs.cols)
+                if lhs.lv is None:
+                    self.err(n0, 'compound assignment to a temporary Eigen expression')
                 rt = self.T(args[1])
                 if rt[0] == 'eig' or rt[0] == 'opaque':
                     rhs = self.eig(args[1])
@@ -1314,9 +1446,13 @@ class FnTranslator:
                 else:
                     s = self.expr(args[1])
                     ev = EigVal(lhs.st, lhs.rows, lhs.cols, lambda i, j: ('bin', op[0], lhs.get(i, j), s, lhs.st))
-                return self.flush() + self.eig_store(self.lvalue(self.strip(args[0])), lt, ev)
-            if op == '<<':
-                return self.comma_init(n0)
+                return self.flush() + self.eig_store(lhs.lv, lt, ev)
+            if op in ('<<', ','):
+                root = n0
+                while root['kind'] == 'CXXOperatorCallExpr' and self.opname(root) == ',':
+                    root = self.strip(self.inner(root)[1])
+                if root['kind'] == 'CXXOperatorCallExpr' and self.opname(root) == '<<' and self.is_eigen_node(self.inner(root)[1]):
+                    return self.comma_init(n0)
         if k == 'CXXMemberCallExpr':
             me = self.callee_decl(n0)
             if me.get('kind') == 'MemberExpr' and me.get('name') in ('setConstant', 'setZero', 'setOnes', 'setIdentity', 'fill') and self.is_eigen_node(self.inner(me)[0]):
@@ -1350,7 +1486,41 @@ class FnTranslator:
 
     # -- range-for over std::vector / std::list ----------------------------------------------
     def range_for(self, n):
-        self.err(n, 'range-for not supported here')
+        """for (auto x : container)  over a std::vector / std::list model  ->  index loop"""
+        parts = [c for c in n.get('inner', []) if isinstance(c, dict) and c]
+        decls = [p for p in parts if p.get('kind') == 'DeclStmt']
+        rng = None
+        loopvar = None
+        for dcl in decls:
+            v = self.inner(dcl)[0]
+            if v.get('name', '').startswith('__range'):
+                rng = self.inner(v)[0]
+            elif not v.get('name', '').startswith('__'):
+                loopvar = v
+        body = parts[-1]
+        if rng is None or loopvar is None:
+            self.err(n, 'range-for shape')
+        cont = self.lvalue(self.strip(rng))
+        ct = cont[-1]
+        if ct[0] not in ('vector', 'list'):
+            self.err(n, 'range-for over %r' % (ct,))
+        u64 = ('int', 64, False)
+        ordn = self.loopn
+        self.loopn += 1
+        idx = '__i%d' % ordn
+        t, is_ref, is_const = parse_type(node_type(loopvar))
+        t = self.fix_type(t)
+        el = ('vindex', cont, ('var', idx, u64), ct[1])
+        pre = []
+        if is_ref:
+            self.alias[loopvar['id']] = el
+        else:
+            self.vars[loopvar['id']] = (loopvar['name'], t, False)
+            pre = [('decl', loopvar['name'], t, el)]
+        b = self.stmt(body)
+        self.rule('range-for over a container model -> index loop')
+        return [('for', [('decl', idx, u64, ('const', u64, 0))], ('bin', '<', ('var', idx, u64), ('field', cont, 'size', u64), ('bool',)),
+                 [('assign', ('var', idx, u64), ('bin', '+', ('var', idx, u64), ('const', u64, 1), u64))], pre + b, ordn)]
 
     # -- comma initialiser ------------------------------------------------------------------
     def comma_init(self, n):
@@ -1371,6 +1541,23 @@ class FnTranslator:
         tgt = items[0][1]
         vals = items[1:]
         t = self.T(tgt)
+        if t[0] != 'eig':
+            tv = self.eig(tgt)
+            vb, vi = self.view_of(tv)
+            if vb is None:
+                self.err(n, 'comma initialiser into a temporary')
+            scal = [self.expr(v) for v in vals]
+            if len(scal) != len(vi):
+                self.err(n, 'comma initialiser arity')
+            self.rule('eigen: comma initialiser into a block/col/row view')
+            out = []
+            names = []
+            for v in scal:
+                nm = self.tmp(tv.st); names.append(nm)
+                out.append(('decl', nm, tv.st, v))
+            for k, nm in zip(vi, names):
+                out.append(('assign', ('elem', vb, k, tv.st), ('var', nm, tv.st)))
+            return self.flush() + out
         lv = self.lvalue(self.strip(tgt))
         R, C = t[2], t[3]
         scal = []
@@ -1621,6 +1808,12 @@ class FnTranslator:
             nm = me.get('name')
             obj = self.inner(me)[0]
             ot = self.T(obj)
+            if nm in ('x', 'y', 'z', 'w') and (self.is_eigen_node(obj) or ot[0] == 'eig'):
+                ev = self.eig(obj)
+                vb, vi = self.view_of(ev)
+                if vb is not None:
+                    self.rule('eigen: x()/y()/z()/w() coefficient reference')
+                    return ('elem', vb, vi['xyzw'.index(nm)], ev.st)
             if ot[0] in ('vector', 'list') and nm in ('front', 'back'):
                 v = self.lvalue(obj)
                 idx = ('const', ('int', 64, False), 0) if nm == 'front' else ('bin', '-', ('field', v, 'size', ('int', 64, False)), ('const', ('int', 64, False), 1), ('int', 64, False))
@@ -1675,6 +1868,12 @@ class FnTranslator:
         n = self.strip(n)
         if n['kind'] == 'IntegerLiteral':
             return int(n['value'])
+        if n['kind'] == 'DeclRefExpr' and n.get('referencedDecl', {}).get('id') in self.consts:
+            return self.consts[n['referencedDecl']['id']]
+        if n['kind'] == 'DeclRefExpr' and n.get('referencedDecl', {}).get('kind') == 'VarDecl' and n['referencedDecl'].get('id') not in self.vars:
+            v = self.unit.static_const(n['referencedDecl']['id'])
+            if isinstance(v, int):
+                return v
         if n['kind'] in ('ImplicitCastExpr', 'CXXStaticCastExpr', 'CStyleCastExpr', 'CXXFunctionalCastExpr'):
             return self.const_int(self.inner(n)[0])
         if n['kind'] == 'DeclRefExpr' and n['referencedDecl'].get('kind') == 'EnumConstantDecl':
@@ -1716,6 +1915,8 @@ class FnTranslator:
             return ('const', ('string',), self.prog.intern_string(n['value']))
         if k == 'CXXNullPtrLiteralExpr':
             return ('const', t, 0)
+        if k == 'DeclRefExpr' and n.get('referencedDecl', {}).get('id') in self.consts:
+            return ('const', t if t[0] == 'int' else ('int', 32, True), self.consts[n['referencedDecl']['id']])
         if k == 'DeclRefExpr':
             rk = n['referencedDecl'].get('kind')
             if rk == 'EnumConstantDecl':
@@ -1827,6 +2028,11 @@ class FnTranslator:
     def aggregate_value(self, n, t):
         """a struct/Eigen value usable as an rvalue: an lvalue, or a temporary built by its constructor"""
         n0 = self.strip(n)
+        if n0['kind'] == 'CXXDefaultArgExpr' and not self.inner(n0):
+            nm = self.tmp(t)
+            self.pre.append(('decl', nm, t, None))
+            self.rule('default argument whose value is not visible in the AST: left unspecified (any value)')
+            return ('var', nm, t)
         while n0['kind'] in ('ImplicitCastExpr', 'CXXFunctionalCastExpr') and n0.get('castKind') in ('NoOp', 'ConstructorConversion'):
             n0 = self.strip(self.inner(n0)[0])
         if n0['kind'] in ('CXXConstructExpr', 'CXXTemporaryObjectExpr'):
@@ -2049,6 +2255,9 @@ class FnTranslator:
         if name == 'sum':
             self.rule('eigen: sum expanded (left fold)')
             return fold('+', [ev.get(i, j) for i, j in cells])
+        if name == 'prod' and st == ('bool',):
+            self.rule('eigen: prod of a boolean array = conjunction')
+            return fold('&&', [ev.get(i, j) for i, j in cells])
         if name == 'prod':
             self.rule('eigen: prod expanded (left fold)')
             return fold('*', [ev.get(i, j) for i, j in cells])
@@ -2103,7 +2312,10 @@ class FnTranslator:
             return ('call', nm, a, t)
         if name in ('isfinite', 'isnan', 'isinf'):
             return ('call', name, [self.expr(x) for x in args], ('bool',))
-        if name in ('min', 'max') and not self.is_repo_decl(callee):
+        if name in ('max', 'min', 'lowest', 'epsilon', 'infinity') and len(args) == 0 and callee['kind'] == 'DeclRefExpr':
+            self.rule('std::numeric_limits<T>::%s() -> constant' % name)
+            return ('call', 'numeric_limits_%s_%s' % (scalar_tag(t), name), [], t)
+        if name in ('min', 'max') and len(args) == 2 and not self.is_repo_decl(callee):
             a, b = [self.expr(x) for x in args]
             self.rule('std::min/max -> conditional with the standard tie rule')
             if name == 'min':
@@ -2180,7 +2392,7 @@ class FnTranslator:
                 return self.eig(self.inner(n)[0])
             self.err(n, 'Eigen cast ' + str(ck))
         if k in ('CXXConstructExpr', 'CXXTemporaryObjectExpr', 'CXXFunctionalCastExpr', 'CXXStaticCastExpr'):
-            args = self.inner(n)
+            args = [a for a in self.inner(n) if self.strip(a)['kind'] != 'CXXDefaultArgExpr']
             if len(args) == 1 and (self.is_eigen_node(args[0]) or self.T(args[0])[0] == 'eig'):
                 return self.eig(args[0])
             if t[0] == 'eig' and len(args) == t[2] * t[3] and all(is_scalar(self.T(a)) for a in args):
@@ -2203,11 +2415,32 @@ class FnTranslator:
             if op == '-' and len(args) == 1:
                 a = self.eig(args[0])
                 return EigVal(a.st, a.rows, a.cols, lambda i, j: ('un', '-', a.get(i, j), a.st))
+            if op == '*' and len(args) == 2:
+                l0 = self.strip(args[0])
+                while l0['kind'] in ('ImplicitCastExpr', 'MaterializeTemporaryExpr', 'CXXBindTemporaryExpr'):
+                    l0 = self.strip(self.inner(l0)[0])
+                if l0['kind'] == 'CXXMemberCallExpr' and self.callee_decl(l0).get('name') == 'inverse':
+                    A = self.eig(self.inner(self.callee_decl(l0))[0])
+                    v = self.eig(args[1])
+                    if A.rows == 4 and A.cols == 4 and v.rows == 3 and v.cols == 1:
+                        self.rule('Eigen::Affine3d inverse() * v -> assumed contract: the unique x with linear*x + translation = v (affine_solve)')
+                        coeffs = [A.get(i, j) for i in range(3) for j in range(4)] + [v.get(i, 0) for i in range(3)]
+                        return EigVal(A.st, 3, 1, lambda i, j: ('call', 'affine_solve%d' % i, coeffs, A.st))
             if op in ('*', '/') and len(args) == 2:
                 ea = self.is_eigen_node(args[0]) or self.T(args[0])[0] == 'eig'
                 eb = self.is_eigen_node(args[1]) or self.T(args[1])[0] == 'eig'
                 if ea and eb:
                     a, b = self.eig(args[0]), self.eig(args[1])
+                    if op == '*' and a.rows == 4 and a.cols == 4 and b.rows == 3 and b.cols == 1:
+                        self.rule('Eigen::Affine3d * vector -> linear part * v + translation')
+
+                        def aff(i, j, a=a, b=b):
+                            acc = None
+                            for kk in range(3):
+                                term = ('bin', '*', a.get(i, kk), b.get(kk, 0), a.st)
+                                acc = term if acc is None else ('bin', '+', acc, term, a.st)
+                            return ('bin', '+', acc, a.get(i, 3), a.st)
+                        return EigVal(a.st, 3, 1, aff)
                     if getattr(a, 'is_array', False) or getattr(b, 'is_array', False):
                         self.rule('eigen: array coefficient-wise %s' % op)
                         r = EigVal(a.st, a.rows, a.cols, lambda i, j: ('bin', op, a.get(i, j), b.get(i, j), a.st))
@@ -2391,16 +2624,32 @@ class FnTranslator:
                 st = tt[1]
             self.rule('eigen: cast<T>() coefficient-wise conversion')
             r = EigVal(st, a.rows, a.cols, lambda i, j: ('cast', a.get(i, j), a.st, st)); r.is_array = getattr(a, 'is_array', False); return r
+        if name in ('translation', 'linear', 'rotation', 'matrix') and a.rows == 4 and a.cols == 4 and 'Transform' in node_type(obj) + self.desugar(obj):
+            self.rule('Eigen::Affine3d %s() -> block of its 4x4 homogeneous matrix%s' % (name, ' (rotation() = linear part: rigid transforms assumed)' if name == 'rotation' else ''))
+            vb, vi = self.view_of(a)
+            if name == 'matrix':
+                return a
+            if name == 'translation':
+                r = EigVal(a.st, 3, 1, lambda i, j: a.get(i, 3))
+                if vb is not None:
+                    r.sub = (vb, [vi[i * 4 + 3] for i in range(3)])
+                return r
+            r = EigVal(a.st, 3, 3, lambda i, j: a.get(i, j))
+            if vb is not None:
+                r.sub = (vb, [vi[i * 4 + j] for i in range(3) for j in range(3)])
+            return r
         if name in ('col', 'row'):
             k = self.const_index(args[0])
             if name == 'col':
                 r = EigVal(a.st, a.rows, 1, lambda i, j: a.get(i, k))
-                if a.lv is not None:
-                    r.sub = (a.lv, [(i * a.cols + k) for i in range(a.rows)])
+                vb, vi = self.view_of(a)
+                if vb is not None:
+                    r.sub = (vb, [vi[i * a.cols + k] for i in range(a.rows)])
             else:
                 r = EigVal(a.st, 1, a.cols, lambda i, j: a.get(k, j))
-                if a.lv is not None:
-                    r.sub = (a.lv, [(k * a.cols + j) for j in range(a.cols)])
+                vb, vi = self.view_of(a)
+                if vb is not None:
+                    r.sub = (vb, [vi[k * a.cols + j] for j in range(a.cols)])
             self.rule('eigen: col()/row() with constant index')
             return r
         if name in ('head', 'tail', 'segment', 'block', 'topLeftCorner', 'topRows', 'leftCols', 'bottomRows', 'rightCols', 'topRightCorner', 'bottomLeftCorner', 'bottomRightCorner'):
@@ -2421,6 +2670,18 @@ class FnTranslator:
             return EigVal(a.st, a.rows, a.cols, lambda i, j: ('bin', '/', a.get(i, j), nrm, a.st))
         self.err(n, 'Eigen method %s' % name)
 
+    def desugar(self, n):
+        t = n.get('type', {})
+        return (t.get('desugaredQualType') or '') + (t.get('qualType') or '')
+
+    def view_of(self, a):
+        """(base lvalue, flat index of every coefficient) when the Eigen value is an lvalue or a view of one, else (None, None)"""
+        if a.lv is not None:
+            return a.lv, list(range(a.rows * a.cols))
+        if hasattr(a, 'sub'):
+            return a.sub
+        return None, None
+
     def _fold_sq(self, a):
         acc = None
         for i in range(a.rows):
@@ -2433,12 +2694,20 @@ class FnTranslator:
         # template-argument forms: block<R,C>(i,j), head<N>(), segment<N>(i), topLeftCorner<R,C>() ...
         q = node_type(n)
         m = re.search(r'Block<.*?, (-?\d+), (-?\d+), (true|false)>', q)
-        if not m:
-            self.err(n, 'cannot read block size from type ' + q)
-        R, C = int(m.group(1)), int(m.group(2))
-        if R < 0 or C < 0:
-            self.err(n, 'dynamic block')
         idx = [self.const_index(x) for x in args]
+        R, C = (int(m.group(1)), int(m.group(2))) if m else (-1, -1)
+        if R < 0 or C < 0:
+            # run-time sized block whose size arguments are compile-time constants: head(n), tail(n), segment(i,n), block(i,j,r,c)
+            vec_col = a.cols == 1
+            if name in ('head', 'tail') and len(idx) == 1:
+                R, C = (idx[0], 1) if vec_col else (1, idx[0]); idx = []
+            elif name == 'segment' and len(idx) == 2:
+                R, C = (idx[1], 1) if vec_col else (1, idx[1]); idx = idx[:1]
+            elif name == 'block' and len(idx) == 4:
+                R, C = idx[2], idx[3]; idx = idx[:2]
+            else:
+                self.err(n, 'dynamic block')
+            self.rule('eigen: run-time sized block with compile-time constant size arguments')
         if name == 'block':
             i0, j0 = idx[0], idx[1]
         elif name == 'head':
@@ -2461,6 +2730,7 @@ class FnTranslator:
             i0, j0 = a.rows - R, a.cols - C
         self.rule('eigen: fixed-size block with constant offsets')
         r = EigVal(a.st, R, C, lambda i, j: a.get(i0 + i, j0 + j))
-        if a.lv is not None:
-            r.sub = (a.lv, [((i0 + i) * a.cols + (j0 + j)) for i in range(R) for j in range(C)])
+        vb, vi = self.view_of(a)
+        if vb is not None:
+            r.sub = (vb, [vi[(i0 + i) * a.cols + (j0 + j)] for i in range(R) for j in range(C)])
         return r
